@@ -47,7 +47,8 @@ def _pool_programs(seed, n):
     one property's generator reaches is a state every property has to hold in."""
     import itertools
     gens = [lambda s_, k_: _zoo_programs(s_, k_, {}), _reset_race_programs, _closed_conn_programs,
-            lambda s_, k_: _closed_conn_programs(s_, k_, close=False), _body_programs, _settings_walk_programs, _id_reuse_programs,
+            lambda s_, k_: _closed_conn_programs(s_, k_, close=False), _body_programs, _settings_walk_programs, _own_settings_traffic_programs,
+            _id_reuse_programs,
             _priority_shape_programs, _altsvc_origin_programs, _altsvc_send_programs, _refused_headers_programs, _orphan_id_programs, _refused_push_programs, _ping_flood_programs,
             _after_limit_programs, _chunked_traffic_programs, _upgrade_value_programs, _boundary_programs]
     per = max(1, n // len(gens))
@@ -139,8 +140,69 @@ def special_C21(seed, tier, model, deadline):
         if fs:
             f = min(fs, key=lambda x: x['idx'])
             fails.append({'seed': seed, 'k': 'rechunk-%d' % k, 'failure': f, 'ops': ops[:f['idx'] + 1]})
+    # runs of like frames in one delivery (anything the library might count per call rather than per connection): the same
+    # run cut at frame boundaries and elsewhere
+    runs = 0
+    for k, (key, base) in enumerate(_frame_run_programs(seed, {'quick': 60, 'thorough': 1200}.get(tier, 60))):
+        if time.time() > deadline:
+            break
+        rng = random.Random((seed * 15485863 + k) & 0xFFFFFFFF)
+        ops = rechunk(base, rng, p_split=1.0)
+        r = replay(ops, model)
+        progs += 1
+        runs += 1
+        nops += len(ops)
+        groups += len(ops) - len(base)
+        if model is not None:
+            for idx, (op, ol, ml, obs) in enumerate(r.log):
+                if ml is not None and obs is not None and not r.unmodelled_at(idx) and L.project('C21', ol) != L.project('C21', ml):
+                    mism.append({'seed': seed, 'k': key, 'idx': idx, 'ops': ops[:idx + 1]})
+                    break
+        fs = oracle_C21(r)
+        if fs:
+            f = min(fs, key=lambda x: x['idx'])
+            fails.append({'seed': seed, 'k': key, 'failure': f, 'ops': ops[:f['idx'] + 1]})
     return {'failures': fails, 'mismatches': mism,
-            'coverage': {'rechunked_programs': progs, 'rechunked_ops': nops, 'extra_chunks': groups}}
+            'coverage': {'rechunked_programs': progs, 'rechunked_ops': nops, 'extra_chunks': groups, 'frame_run_programs': runs}}
+
+
+def _frame_run_programs(seed, n):
+    """one delivery that holds a run of 2..14 frames of one kind (empty DATA, small DATA, padded empty DATA, PING, PING
+    ACK, empty SETTINGS, SETTINGS ACK, WINDOW_UPDATE, PRIORITY, RST_STREAM for a finished stream, unknown frame types) on
+    a connection with a live stream, sometimes with another frame in the middle of the run"""
+    import random
+    import wire
+    blk = wire.hpack_literal_block
+    REQ = [(b':method', b'POST', False), (b':scheme', b'https', False), (b':path', b'/', False), (b':authority', b'x', False)]
+    REQB = blk([(h[0], h[1]) for h in REQ])
+    for k in range(n):
+        rng = random.Random((seed * 86028121 + k) & 0xFFFFFFFF)
+        client = rng.random() < 0.5
+        ops = [{'op': 'new', 'c': 0, 'client': client, 'vo': 1, 'no': 1, 'vi': 1, 'ni': 1, 'enc': None},
+               {'op': 'initiate_connection', 'c': 0},
+               {'op': 'recv', 'c': 0, 'data': (b'' if client else wire.PREFACE) + wire.settings_frame([]) + wire.settings_frame(ack=True)}]
+        if client:
+            ops.append({'op': 'send_headers', 'c': 0, 'sid': 1, 'headers': REQ, 'es': rng.random() < 0.5})
+            ops.append({'op': 'recv', 'c': 0, 'data': wire.headers_frames(1, blk([(b':status', b'200')]))})
+        else:
+            ops.append({'op': 'recv', 'c': 0, 'data': wire.headers_frames(1, REQB)})
+        kind = rng.choice(['empty-data', 'empty-data', 'empty-data', 'data', 'padded-empty', 'ping', 'ping-ack', 'settings', 'settings-ack',
+                           'window', 'priority', 'rst-gone', 'unknown'])
+        one = {'empty-data': lambda j: wire.data_frame(1, b''), 'data': lambda j: wire.data_frame(1, b'x'),
+               'padded-empty': lambda j: wire.data_frame(1, b'', pad=rng.choice([0, 3])),
+               'ping': lambda j: wire.ping(bytes([j]) * 8), 'ping-ack': lambda j: wire.ping(bytes([j]) * 8, ack=True),
+               'settings': lambda j: wire.settings_frame([]), 'settings-ack': lambda j: wire.settings_frame(ack=True),
+               'window': lambda j: wire.window_update(rng.choice([0, 1]), 1), 'priority': lambda j: wire.priority(rng.choice([1, 5, 9]), 0, 16),
+               'rst-gone': lambda j: wire.rst_stream(1, 0), 'unknown': lambda j: wire.frame(0x42, 0, 0, b'?')}[kind]
+        count = rng.choice([2, 3, 4, 5, 5, 6, 6, 7, 9, 11, 14])
+        frames = [one(j) for j in range(count)]
+        if rng.random() < 0.3:
+            frames.insert(rng.randrange(0, count), wire.ping(b'between!'))
+        if rng.random() < 0.3:
+            frames.append(wire.data_frame(1, b'last', end_stream=True))
+        ops.append({'op': 'recv', 'c': 0, 'data': b''.join(frames)})
+        ops.append({'op': 'data_to_send', 'c': 0, 'amount': None})
+        yield 'run-%d-%s-%d' % (k, kind, count), ops
 
 
 def special_C10(seed, tier, model, deadline):
@@ -1158,15 +1220,77 @@ def _settings_walk_programs(seed, n):
         yield 'walk-%d' % k, ops
 
 
+def _own_settings_traffic_programs(seed, n):
+    """the endpoint itself announces a setting — every identifier from 1 to 16 (the registered ones and the ones later
+    RFCs gave a meaning: 8 ENABLE_CONNECT_PROTOCOL, 9 NO_RFC7540_PRIORITIES), value 0 or 1 or the setting's default —
+    the peer acknowledges it or not, and then ordinary traffic of every frame type arrives in its common shapes (HEADERS
+    plain, with priority fields, padded, in CONTINUATION frames; PRIORITY; DATA; PING; WINDOW_UPDATE; RST_STREAM;
+    PUSH_PROMISE; ALTSVC; SETTINGS): what the endpoint announced must not make well-formed input fatal"""
+    import random
+    import wire
+    blk = wire.hpack_literal_block
+    REQ = [(b':method', b'GET', False), (b':scheme', b'https', False), (b':path', b'/', False), (b':authority', b'x', False)]
+    REQB = blk([(h[0], h[1]) for h in REQ])
+    RESP = blk([(b':status', b'200')])
+    for k in range(n):
+        rng = random.Random((seed * 2750159 + k) & 0xFFFFFFFF)
+        client = rng.random() < 0.5
+        ops = [{'op': 'new', 'c': 0, 'client': client, 'vo': 1, 'no': 1, 'vi': 1, 'ni': 1, 'enc': None},
+               {'op': 'initiate_connection', 'c': 0},
+               {'op': 'recv', 'c': 0, 'data': (b'' if client else wire.PREFACE) + wire.settings_frame([]) + wire.settings_frame(ack=True)}]
+        ident = rng.choice(list(range(1, 17)) + [8, 9, 9, 9, 7, 10])
+        default = {1: 4096, 3: 100, 4: 65535, 5: 16384, 6: 65536}.get(ident, 1)
+        value = rng.choice([0, 1, 1, default])
+        ops.append({'op': 'update_settings', 'c': 0, 'settings': [(ident, value)]})
+        if rng.random() < 0.8:
+            ops.append({'op': 'recv', 'c': 0, 'data': wire.settings_frame(ack=True)})
+        if client:
+            ops.append({'op': 'send_headers', 'c': 0, 'sid': 1, 'headers': REQ, 'es': rng.random() < 0.5})
+        nxt = 1 if client else 1
+        for _ in range(rng.randrange(2, 7)):
+            kind = rng.choice(['headers', 'headers-prio', 'headers-prio', 'headers-pad', 'headers-cont', 'priority', 'data', 'ping', 'window',
+                               'rst', 'push', 'altsvc', 'settings'])
+            if client:
+                sid, block = 1, RESP
+            else:
+                sid, block = nxt, REQB
+            if kind.startswith('headers'):
+                d = wire.headers_frames(sid, block, end_stream=rng.random() < 0.3,
+                                        prio=(rng.choice([0, 3, 5]), rng.choice([1, 16, 256]), rng.random() < 0.5) if kind == 'headers-prio' else None,
+                                        pad=4 if kind == 'headers-pad' else None, max_frag=5 if kind == 'headers-cont' else None)
+                if not client:
+                    nxt += 2
+            elif kind == 'priority':
+                d = wire.priority(rng.choice([1, 3, 9]), 0, rng.choice([1, 16, 256]), rng.random() < 0.5)
+            elif kind == 'data':
+                d = wire.data_frame(1, b'abc', end_stream=rng.random() < 0.3, pad=rng.choice([None, None, 2]))
+            elif kind == 'ping':
+                d = wire.ping(b'12345678', ack=rng.random() < 0.3)
+            elif kind == 'window':
+                d = wire.window_update(rng.choice([0, 1]), rng.choice([1, 1000]))
+            elif kind == 'rst':
+                d = wire.rst_stream(1, rng.choice([0, 8]))
+            elif kind == 'push':
+                d = wire.push_promise_frames(1, rng.choice([2, 4]), REQB)
+            elif kind == 'altsvc':
+                d = wire.altsvc(rng.choice([0, 1]), b'example.com' if rng.random() < 0.5 else b'', b'h2=":443"')
+            else:
+                d = wire.settings_frame([(rng.choice([1, 2, 3, 4, 5, 6, 8, 9]), rng.choice([0, 1]))] if rng.random() < 0.7 else [])
+            ops.append({'op': 'recv', 'c': 0, 'data': d})
+        yield 'own-setting-%d-%d-%d' % (k, ident, value), ops
+
+
 def special_C17(seed, tier, model, deadline):
-    """odd status / method / content-length values around message bodies (see _body_programs) and walks of SETTINGS values
-    (see _settings_walk_programs) under oracle_C17"""
+    """odd status / method / content-length values around message bodies (see _body_programs), walks of SETTINGS values
+    (see _settings_walk_programs) and ordinary traffic after the endpoint announced a setting of its own (see
+    _own_settings_traffic_programs) under oracle_C17"""
     from oracles import oracle_C17
     res = _run_body('C17', oracle_C17, seed, tier, model, deadline, 300)
-    more = _run_directed('C17', oracle_C17, _settings_walk_programs, 'settings_walk')(seed, tier, model, deadline, 250)
-    res['failures'] += more['failures']
-    res['mismatches'] += more['mismatches']
-    res['coverage'].update(more['coverage'])
+    for gen_, cov_, n_ in ((_settings_walk_programs, 'settings_walk', 250), (_own_settings_traffic_programs, 'own_settings', 200)):
+        more = _run_directed('C17', oracle_C17, gen_, cov_)(seed, tier, model, deadline, n_)
+        res['failures'] += more['failures']
+        res['mismatches'] += more['mismatches']
+        res['coverage'].update(more['coverage'])
     return res
 
 
